@@ -67,7 +67,8 @@ def _exchange(ctx, version, methods, kinds, deep):
     # a reason phrase and a header value with inner runs of whitespace (to be delivered verbatim)
     reason = ctx.pick("reason", [None, "Quota  exceeded\there"]) if status == 200 else None
     # thorough: response body sizes around the writer's coalescing threshold and the reader's 64 KiB limit
-    pad = ctx.pick("resp_body_size", [0, 2047, 2048, 2049, 70000]) if deep and kind != "empty" else 0
+    pad = ctx.pick("resp_body_size", [0, 2047, 2048, 2049, 70000]) if deep and kind != "empty" else \
+        (ctx.pick("resp_body_size", [0, 70000]) if kind == "payload" else 0)  # a Payload body is written in 64 KiB pieces
     req_pad = ctx.pick("req_body_size", [0, 2049, 70000]) if deep and req_body != "none" else 0
     seen = []
     seen_cookies = []
@@ -87,6 +88,10 @@ def _exchange(ctx, version, methods, kinds, deep):
             resp = web.Response(status=status, reason=reason, headers=hdrs)
         elif kind == "bytes":
             resp = web.Response(status=status, reason=reason, body=tag, headers=hdrs)
+        elif kind == "payload":
+            import io
+
+            resp = web.Response(status=status, reason=reason, body=io.BytesIO(tag), headers=hdrs)
         elif kind == "json":
             resp = web.json_response({"tag": tag.decode()}, status=status, reason=reason, headers=hdrs)
         elif kind == "file":
@@ -316,7 +321,7 @@ def jobs(tier):
     out = []
     for v in ("1.1", "1.0"):
         for m in ("GET", "HEAD", "POST", "PUT"):
-            for k in ("empty", "bytes", "chunked", "stream", "json", "file"):
+            for k in ("empty", "bytes", "chunked", "stream", "json", "file", "payload"):
                 out.append(dict(name=f"x-{v}-{m}-{k}", func="exchange",
                                 params=dict(version=v, methods=[m], kinds=[k], deep=tier != "quick"), limits=lim))
     return out
@@ -330,6 +335,6 @@ REQUIRED_OUTCOMES = ("1.1:reused", "1.1:new-conn", "1.0:")
 
 
 def bounds(tier):
-    return {"product": "version {1.0,1.1} x method {GET,HEAD,POST,PUT} x request body {none, bytes, async stream, json, form} x Expect: 100-continue x request cookie x Connection {absent, close, keep-alive} x status {200,204,304,404} x response body {empty, bytes, chunked stream, stream of unknown length, json, file} x force_close x 5 request cuts x 6 response cuts - complete",
+    return {"product": "version {1.0,1.1} x method {GET,HEAD,POST,PUT} x request body {none, bytes, async stream, json, form} x Expect: 100-continue x request cookie x Connection {absent, close, keep-alive} x status {200,204,304,404} x response body {empty, bytes, chunked stream, stream of unknown length, json, file, Payload} x force_close x 5 request cuts x 6 response cuts - complete",
             "second_request": "a GET on the same session after the first exchange",
             "thorough": "additionally response body sizes {5, 2047, 2048, 2049, 70000}, request body sizes {4, 2049, 70000}, 7 request cuts, 9 response cuts; every job runs the full product (incl. Expect / cookie / json / form)"}
